@@ -73,7 +73,7 @@ def nd_idx(dims, constructs=None, rounds=1):
 _ND_LIGHT = ["port", "sport", "wire", "pfield", "pfwire", "pftmp", "sfield", "ifc", "ifcnest", "ifcport", "ffwire", "constarr"]
 GEN = {
     "quick": [("unit", 160), ("ops", 40), ("expr", 24), ("ctrl", 24), ("loopidx", 10), ("struct", 10), ("hier", 10),
-              ("seq", 12), ("misc", 12),
+              ("seq", 12), ("misc", 14),
               ("nd", nd_idx([1, 2]) + nd_idx([3], _ND_LIGHT + ["comphet", "compifc"])),
               ("lv", 8), ("stmt", 28)],
     # (the whole grid and a second round of its 2-D part; the expression families
@@ -100,7 +100,7 @@ QUICK_STDLIB = ["RoundRobinArbiter_4", "RoundRobinArbiterEn_3", "Mux_8_4", "Mux_
 # interfaces, struct wires) and the heaviest ones only in 2-D; the whole grid in the thorough tier)
 GEN_C12 = {
     "quick": [("unit", 40), ("ops", 8), ("expr", 10), ("ctrl", 12), ("loopidx", 10), ("struct", 16), ("hier", 10),
-              ("seq", 8), ("misc", 12),
+              ("seq", 8), ("misc", 14),
               ("nd", nd_idx([2], ["port", "sport", "wire", "pfield", "pfwire", "pftmp", "ifc", "ifcnest", "ifcport", "comp",
                                   "ffwire", "constarr"])
                + nd_idx([3], ["port"]) + nd_idx([1], ["ifcnest", "ifcport"])),
